@@ -94,6 +94,26 @@ def tokens(ps, s, tolerant=True):
     return tuple(out)
 
 
+# documents for the "parses identically" half: every configured delimiter opens, closes, nests and is left open once
+PARSE_DOCS = ['a', '{a}', '[a]', '<a>', '(a)', '$a$', '$a!', '$$a$$', '!!a!!', '\\(a\\)', '\\[a\\]', '{[a]}', '[{a}]', '{<a>}',
+              '{$a$}', '$a', 'a$', 'a\\)', 'a!', '{a', 'a}', 'a]', 'a>', '\\a{b}', '\\a[b]{c}', '@a{b}', '\\textbf a', '%c\na', '#c\na',
+              'a\n\nb', '~a', '\\begin{x}a\\end{x}', '@begin{x}a@end{x}', '{a$}$', '$a{$}', '\\sqrt[a]{b}', '\\frac a{b}$', 'a$b$$c$$']
+
+
+def parse_with(ps, s, tolerant):
+    from pylatexenc.latexwalker import LatexWalker
+    from pylatexenc.latexnodes import LatexWalkerParseError
+    from pylatexenc.latexnodes.parsers import LatexGeneralNodesParser
+    lw = LatexWalker(s, latex_context=ps.latex_context, tolerant_parsing=tolerant)
+    try:
+        nodes, delta = lw.parse_content(LatexGeneralNodesParser(), parsing_state=ps)
+    except LatexWalkerParseError as e:
+        return ('parse-error', getattr(e, 'pos', None), str(getattr(e, 'msg', ''))[:80])
+    except Exception as e:
+        return ('exc', type(e).__name__)
+    return ('ok', canon.canon_node(nodes), type(delta).__name__ if delta is not None else None)
+
+
 _WORDS = {}
 
 
@@ -159,6 +179,20 @@ def check_state(root_i, chain, acc, seen_tables, b, seen=None):
                                                            last_delta=sorted(DELTAS[chain[-1]].keys()) if chain else None),
                           observed=repr(td)[:500], expected=repr(tf)[:500])
             break
+    # ... and parses identically (strict and tolerant) - once per distinct state
+    for s in PARSE_DOCS:
+        pd = None
+        for tol in (False, True):
+            if tol and pd[0] == 'ok':
+                continue   # tolerant = strict where strict succeeds (C06); tolerant recovery only where strict fails
+            st1, pd = run_guarded(parse_with, d, s, tol)
+            st2, pf = run_guarded(parse_with, f, s, tol)
+            acc.count('parse_comparisons')
+            if (st1, pd) != (st2, pf):
+                acc.violation(ID, 'es', dict(case, s=s, tolerant=tol),
+                              dict(kind='parse-differs-from-fresh', last_delta=sorted(DELTAS[chain[-1]].keys()) if chain else None),
+                              observed=repr((st1, pd))[:500], expected=repr((st2, pf))[:500])
+                return kd
     return kd
 
 
@@ -194,8 +228,8 @@ def plan(tier):
         rule=('all chains of <= %d sub_context() calls over %d field changes from 3 root states; states merged on '
               '(public fields, cached tables); in every state the derived object is compared with ParsingState(**get_fields()) on '
               'its cached tables and on the token sequences of all words of length <= %d (<= %d when the tables are new) over a '
-              '17-symbol alphabet containing every configured delimiter; the parent is compared with an independently rebuilt parent. '
-              'states = distinct canonical states per shard; non-trivial = chains of length >= 2.' % (b['chain'], len(DELTAS), b['W'], b['Wnew'])),
+              '17-symbol alphabet containing every configured delimiter, and on the strict and tolerant parse (LatexGeneralNodesParser started in that state) of a %d-document menu; the parent is compared with an independently rebuilt parent. '
+              'states = distinct canonical states per shard; non-trivial = chains of length >= 2.' % (b['chain'], len(DELTAS), b['W'], b['Wnew'], len(PARSE_DOCS))),
         assumptions=['a child inherits only fields and the cached tables from its parent (key completeness)'],
     )
 
